@@ -181,6 +181,13 @@ trait Pay:
     fn exponent(_base: &Src<Self>, _exponent: &Src<Self>) -> Option<Box<dyn Getter<Self, E>>> {
         None
     }
+    fn exponent_refs(_base: Reference<dyn Getter<Self, E>>, _exponent: Reference<dyn Getter<Self, E>>) -> Option<Box<dyn Getter<Self, E>>> {
+        None
+    }
+    /// the crate's own powf, through a second ExponentStream fed by two ConstantGetters
+    fn reference_pow(_base: Self, _exponent: Self) -> Option<Self> {
+        None
+    }
 }
 fn fval(rng: &mut Rng) -> f32 {
     if rng.chance(0.4) {
@@ -221,6 +228,17 @@ impl Pay for f32 {
     }
     fn exponent(base: &Src<f32>, exponent: &Src<f32>) -> Option<Box<dyn Getter<f32, E>>> {
         Some(Box::new(ExponentStream::new(base.dynref(), exponent.typed())))
+    }
+    fn exponent_refs(base: Reference<dyn Getter<f32, E>>, exponent: Reference<dyn Getter<f32, E>>) -> Option<Box<dyn Getter<f32, E>>> {
+        Some(Box::new(ExponentStream::new(base, exponent)))
+    }
+    fn reference_pow(b: f32, x: f32) -> Option<f32> {
+        let (t1, t2) = (TSrc::new(0), TSrc::new(0));
+        let r = ExponentStream::new(refof(ConstantGetter::new(t1.dynref(), b)), refof(ConstantGetter::new(t2.dynref(), x)));
+        match catch(|| r.get()) {
+            Ok(Ok(Some(d))) => Some(d.value),
+            _ => None,
+        }
     }
 }
 impl Pay for Quantity {
@@ -451,9 +469,13 @@ impl Kind {
     }
 }
 fn build_nary<T: Pay>(kind: Kind, srcs: &[Src<T>]) -> Box<dyn Getter<T, E>> {
+    let refs: Vec<Reference<dyn Getter<T, E>>> = srcs.iter().map(|s| s.dynref()).collect();
+    build_nary_refs(kind, &refs)
+}
+fn build_nary_refs<T: Pay>(kind: Kind, refs: &[Reference<dyn Getter<T, E>>]) -> Box<dyn Getter<T, E>> {
     macro_rules! inst {
         ($n:literal) => {{
-            let a: [Reference<dyn Getter<T, E>>; $n] = core::array::from_fn(|i| srcs[i].dynref());
+            let a: [Reference<dyn Getter<T, E>>; $n] = core::array::from_fn(|i| refs[i].clone());
             match kind {
                 Kind::Sum => Box::new(SumStream::<T, $n, E>::new(a)) as Box<dyn Getter<T, E>>,
                 Kind::Product => Box::new(ProductStream::<T, $n, E>::new(a)) as Box<dyn Getter<T, E>>,
@@ -461,7 +483,7 @@ fn build_nary<T: Pay>(kind: Kind, srcs: &[Src<T>]) -> Box<dyn Getter<T, E>> {
             }
         }};
     }
-    match srcs.len() {
+    match refs.len() {
         1 => inst!(1),
         2 => inst!(2),
         3 => inst!(3),
@@ -471,7 +493,8 @@ fn build_nary<T: Pay>(kind: Kind, srcs: &[Src<T>]) -> Box<dyn Getter<T, E>> {
     }
 }
 /// documented outcome of an n-ary sum / product: first error in input order; absent inputs skipped;
-/// absent iff all absent; present values folded left to right with the plain operator; newest stamp.
+/// absent iff all absent; present values combined in input order with the plain operator (here: the
+/// left fold; see `nary_acceptable` for the other associations); newest stamp.
 fn fold_oracle<T: Pay>(outs: &[Out<T>], op: fn(T, T) -> T) -> Out<T> {
     if let Some(e) = first_err(outs) {
         return Err(e);
@@ -486,6 +509,56 @@ fn fold_oracle<T: Pay>(outs: &[Out<T>], op: fn(T, T) -> T) -> Out<T> {
     }
     Ok(Some(Datum::new(max_time(&p), acc)))
 }
+/// Every value obtainable by combining `vals` with `op` in INPUT ORDER under some parenthesization
+/// (interval DP, deduplicated with `veq`). "Combined with exactly the corresponding operator in input
+/// order" fixes the operand order, not the association: a right fold or a pairwise tree is as
+/// legitimate as the left fold. (M2's operators are associative, so for M2 this set is a single value
+/// and the operand order stays checked exactly.)
+fn all_parenthesizations<T: Pay>(vals: &[T], op: fn(T, T) -> T) -> Vec<T> {
+    let n = vals.len();
+    let mut table: Vec<Vec<Vec<T>>> = vec![vec![Vec::new(); n]; n];
+    for i in 0..n {
+        table[i][i] = vec![vals[i]];
+    }
+    for len in 2..=n {
+        for i in 0..=n - len {
+            let j = i + len - 1;
+            let mut acc: Vec<T> = Vec::new();
+            for k in i..j {
+                for a in &table[i][k] {
+                    for b in &table[k + 1][j] {
+                        let v = op(*a, *b);
+                        if !acc.iter().any(|x| T::veq(x, &v)) {
+                            acc.push(v);
+                        }
+                    }
+                }
+            }
+            table[i][j] = acc;
+        }
+    }
+    table[0][n - 1].clone()
+}
+/// Acceptable outcomes of an n-ary sum / product: the left fold first; when the observation differs
+/// from it and three or more inputs are present, every other order-preserving parenthesization too
+/// (same newest stamp; units are association-independent).
+fn nary_acceptable<T: Pay>(outs: &[Out<T>], op: fn(T, T) -> T, obs: &Obs<T>) -> Vec<Out<T>> {
+    let left = fold_oracle(outs, op);
+    let matches_left = matches!(obs, Ok(o) if out_same(&o[0], &left, T::veq));
+    let p = present(outs);
+    if matches_left || first_err(outs).is_some() || p.len() < 3 {
+        return vec![left];
+    }
+    let vals: Vec<T> = p.iter().map(|d| d.value).collect();
+    let t = max_time(&p);
+    let mut ok = vec![left];
+    for v in all_parenthesizations(&vals, op) {
+        if !ok.iter().any(|e| matches!(e, Ok(Some(d)) if T::veq(&d.value, &v))) {
+            ok.push(Ok(Some(Datum::new(t, v))));
+        }
+    }
+    ok
+}
 fn nary_case<T: Pay>(ck: &mut Ck, kind: Kind, sh: &Shape, rng: &mut Rng) {
     let n = sh.codes.len();
     let ts = stamps_for(rng, sh);
@@ -495,8 +568,8 @@ fn nary_case<T: Pay>(ck: &mut Ck, kind: Kind, sh: &Shape, rng: &mut Rng) {
     let g = build_nary::<T>(kind, &srcs);
     let obs = get3(&*g);
     let ok: Vec<Out<T>> = match kind {
-        Kind::Sum => vec![fold_oracle(&outs, |a, b| a + b)],
-        Kind::Product => vec![fold_oracle(&outs, |a, b| a * b)],
+        Kind::Sum => nary_acceptable(&outs, |a, b| a + b, &obs),
+        Kind::Product => nary_acceptable(&outs, |a, b| a * b, &obs),
         Kind::Latest => {
             // errors and absent inputs are ignored; any present input carrying the newest stamp
             let p = present(&outs);
@@ -515,6 +588,10 @@ fn nary_case<T: Pay>(ck: &mut Ck, kind: Kind, sh: &Shape, rng: &mut Rng) {
         Kind::Sum => order_sensitive(ck.rep, "SumStream", &outs, |a, b| a + b),
         Kind::Product => order_sensitive(ck.rep, "ProductStream", &outs, |a, b| a * b),
         Kind::Latest => {}
+    }
+    if kind != Kind::Latest && hit.map_or(false, |i| i > 0) {
+        // legitimate: same operands in the same order, different association
+        ck.rep.tally("nary_value_matched_a_non_left_fold_association");
     }
     if kind == Kind::Latest && ok.len() > 1 && hit.is_some() {
         ck.rep.tally("latest_ties_checked");
@@ -1135,9 +1212,13 @@ struct Extra<T> {
     constant: T,
     limit: i64,
 }
+type ReadFn<T> = Box<dyn Fn() -> AnyOut<T>>;
+type UpdFn = Box<dyn Fn() -> NothingOrError<E>>;
 struct Rig<T: Clone> {
     srcs: Vec<SlotSrc<T>>,
-    read: Box<dyn Fn() -> AnyOut<T>>,
+    read: ReadFn<T>,
+    /// `Updatable::update` of the combinator itself (documented no-op of every stateless combinator)
+    update: UpdFn,
 }
 impl<T: Clone + 'static> Rig<T> {
     fn set(&self, slots: &[Slot<T>]) {
@@ -1151,11 +1232,26 @@ impl<T: Clone + 'static> Rig<T> {
         }
     }
 }
-fn vbox<T: 'static, G: Getter<T, E> + 'static>(g: G) -> Box<dyn Fn() -> AnyOut<T>> {
-    Box::new(move || AnyOut::V(g.get()))
+fn vbox<T: 'static, G: Getter<T, E> + 'static>(g: G) -> (ReadFn<T>, UpdFn) {
+    let a = rc(g);
+    let a2 = a.clone();
+    (Box::new(move || AnyOut::V(a.borrow().get())), Box::new(move || a2.borrow_mut().update()))
 }
-fn bbox<T: 'static, G: Getter<bool, E> + 'static>(g: G) -> Box<dyn Fn() -> AnyOut<T>> {
-    Box::new(move || AnyOut::B(g.get()))
+fn bbox<T: 'static, G: Getter<bool, E> + 'static>(g: G) -> (ReadFn<T>, UpdFn) {
+    let a = rc(g);
+    let a2 = a.clone();
+    (Box::new(move || AnyOut::B(a.borrow().get())), Box::new(move || a2.borrow_mut().update()))
+}
+/// total number of get() calls received by the inputs of a rig (observation only)
+fn rig_polls<T: Clone + 'static>(r: &Rig<T>) -> u64 {
+    r.srcs
+        .iter()
+        .map(|s| match s {
+            SlotSrc::V(s) => s.gets(),
+            SlotSrc::B(s) => s.gets(),
+            SlotSrc::C(s) => s.gets(),
+        })
+        .sum()
 }
 fn make<T: Pay>(kind: LK, ex: &Extra<T>) -> Rig<T> {
     let srcs: Vec<SlotSrc<T>> = kind
@@ -1185,12 +1281,13 @@ fn make<T: Pay>(kind: LK, ex: &Extra<T>) -> Rig<T> {
             _ => unreachable!(),
         }
     };
-    let nary = |k: Kind, n: usize| -> Box<dyn Fn() -> AnyOut<T>> {
+    let nary = |k: Kind, n: usize| -> (ReadFn<T>, UpdFn) {
         let ss: Vec<Src<T>> = (0..n).map(&v).collect();
-        let g = build_nary::<T>(k, &ss);
-        Box::new(move || AnyOut::V(g.get()))
+        let a = rc(build_nary::<T>(k, &ss));
+        let a2 = a.clone();
+        (Box::new(move || AnyOut::V(a.borrow().get())), Box::new(move || a2.borrow_mut().update()))
     };
-    let read: Box<dyn Fn() -> AnyOut<T>> = match kind {
+    let (read, update): (ReadFn<T>, UpdFn) = match kind {
         LK::Sum(n) => nary(Kind::Sum, n),
         LK::Product(n) => nary(Kind::Product, n),
         LK::Latest(n) => nary(Kind::Latest, n),
@@ -1199,8 +1296,9 @@ fn make<T: Pay>(kind: LK, ex: &Extra<T>) -> Rig<T> {
         LK::Difference => vbox(DifferenceStream::new(v(0).typed(), v(1).dynref())),
         LK::Quotient => vbox(QuotientStream::new(v(0).dynref(), v(1).typed())),
         LK::Exponent => {
-            let g = T::exponent(&v(0), &v(1)).expect("ExponentStream is only instantiated for f32");
-            Box::new(move || AnyOut::V(g.get()))
+            let a = rc(T::exponent(&v(0), &v(1)).expect("ExponentStream is only instantiated for f32"));
+            let a2 = a.clone();
+            (Box::new(move || AnyOut::V(a.borrow().get())) as ReadFn<T>, Box::new(move || a2.borrow_mut().update()) as UpdFn)
         }
         LK::And => bbox(AndStream::new(b(0).dynref(), b(1).typed())),
         LK::Or => bbox(OrStream::new(b(0).typed(), b(1).dynref())),
@@ -1212,7 +1310,7 @@ fn make<T: Pay>(kind: LK, ex: &Extra<T>) -> Rig<T> {
         LK::Expirer => vbox(Expirer::new(v(0).dynref(), c(1).dynref(), Time(ex.limit))),
         LK::Constant => vbox(ConstantGetter::new(c(0).dynref(), ex.constant)),
     };
-    Rig { srcs, read }
+    Rig { srcs, read, update }
 }
 /// value / stamp generator of one sequence
 struct Gen<T> {
@@ -1404,9 +1502,32 @@ fn longlived_case<T: Pay>(ck: &mut Ck, kind: LK, rng: &mut Rng) {
     let mut history: Vec<String> = Vec::new();
     let mut prev_fresh: Option<AnyOut<T>> = None;
     for step in 0..len {
+        // update() of the combinator itself at arbitrary points: while the inputs still hold the
+        // PREVIOUS assignment (schedule [set A; update(); set B; get()] must describe B) and/or after
+        // the new one. It is the documented no-op of a stateless combinator and must return Ok(()).
+        let upd_before = step > 0 && rng.chance(0.5);
+        let upd_after = rng.chance(0.25);
+        let run_update = |ck: &mut Ck, when: &str, history: &mut Vec<String>| {
+            let polls0 = rig_polls(&rig);
+            let r = catch(|| (rig.update)());
+            ck.rep.eval();
+            ck.rep.max("update_input_polls_per_call", (rig_polls(&rig) - polls0) as f64);
+            history.push(format!("update() {}", when));
+            match r {
+                Ok(Ok(())) => ck.rep.tally("combinator_update_calls_ok"),
+                other => ck.rep.violation(&format!("C02/{}/update-result", stream), ck.sub, ck.case,
+                    format!("{}<{}> after {}: update() of the combinator returned {:?}, documented no-op Ok(())", stream, T::NAME, history.join("; "), other)),
+            }
+        };
+        if upd_before {
+            run_update(ck, "while the inputs hold the previous assignment", &mut history);
+        }
         let (aspect, which) = if step == 0 { ("initial", 0) } else { mutate(rng, &mut slots, &mut shadow, &g) };
         rig.set(&slots);
         history.push(format!("#{} [{} of input {}] {:?}", step, aspect, which, slots));
+        if upd_after {
+            run_update(ck, "after this assignment", &mut history);
+        }
         let nreads = 1 + rng.usize(2);
         let live: Result<Vec<AnyOut<T>>, String> = catch(|| (0..nreads).map(|_| (rig.read)()).collect());
         let fresh_rig = make::<T>(kind, &ex);
@@ -1416,7 +1537,7 @@ fn longlived_case<T: Pay>(ck: &mut Ck, kind: LK, rng: &mut Rng) {
         let cats: Vec<u8> = slots.iter().map(slot_cat).collect();
         ck.rep.distinct(("longlived", stream, T::NAME, lay.len(), aspect, which, cats));
         if ck.rep.verbose {
-            eprintln!("case {}:{} {}<{}> {} -> long-lived {:?} fresh {:?}", ck.sub, ck.case, stream, T::NAME, history[step], live, fresh);
+            eprintln!("case {}:{} {}<{}> {} -> long-lived {:?} fresh {:?}", ck.sub, ck.case, stream, T::NAME, history.last().unwrap(), live, fresh);
         }
         match (&live, &fresh) {
             (Ok(l), Ok(fr)) => {
@@ -1424,6 +1545,11 @@ fn longlived_case<T: Pay>(ck: &mut Ck, kind: LK, rng: &mut Rng) {
                     ck.rep.tally(&format!("history_steps:{}", aspect));
                     if let Some(p) = &prev_fresh {
                         if !any_same(p, fr) {
+                            if upd_before && !upd_after {
+                                // [set A; update(); set B; get()] where B reads differently from A
+                                ck.rep.tally("update_then_change_then_get_with_changed_output");
+                                ck.rep.tally(&format!("update_then_change_then_get:{}", stream));
+                            }
                             ck.rep.tally(&format!("history_steps_changing_the_output:{}", aspect));
                             if kind == LK::Exponent {
                                 ck.rep.tally("history_exponent_steps_changing_the_output");
@@ -1446,6 +1572,310 @@ fn longlived_case<T: Pay>(ck: &mut Ck, kind: LK, rng: &mut Rng) {
         }
         prev_fresh = fresh.ok();
     }
+}
+
+// ---------------------------------------------------------------------------------------------
+// aliased inputs: the SAME source object in two (or all) input slots, through every Reference backing
+// ---------------------------------------------------------------------------------------------
+// A program may feed one signal to both inputs of a combinator (x*x, x+x, And(a,a) ...). The documented
+// outcome is simply the outcome for equal operands. With a lock-backed Reference a combinator that keeps
+// the guard of one input alive while borrowing the next never returns (self-deadlock on a Mutex) or
+// panics (RefCell already borrowed): each case therefore runs on a helper thread and the monitor waits
+// with a generous bound; "did not return" is the logical non-return of one uncontended call, not a
+// performance verdict. References are !Send, so everything is built inside the thread and only the
+// verdict travels back. (The raw-pointer backings leak a few bytes per case, deliberately.)
+use std::sync::{mpsc, Arc, Mutex, RwLock};
+#[derive(Clone, Copy, PartialEq, Eq, Debug, Hash)]
+enum AK {
+    Sum(usize),
+    Product(usize),
+    Latest(usize),
+    Sum2,
+    Product2,
+    Difference,
+    Quotient,
+    Exponent,
+    IfElse,
+    And,
+    Or,
+    IfBool,
+    IfElseBool,
+}
+impl AK {
+    fn name(self) -> &'static str {
+        match self {
+            AK::Sum(_) => "SumStream",
+            AK::Product(_) => "ProductStream",
+            AK::Latest(_) => "Latest",
+            AK::Sum2 => "Sum2",
+            AK::Product2 => "Product2",
+            AK::Difference => "DifferenceStream",
+            AK::Quotient => "QuotientStream",
+            AK::Exponent => "ExponentStream",
+            AK::IfElse | AK::IfElseBool => "IfElseStream",
+            AK::And => "AndStream",
+            AK::Or => "OrStream",
+            AK::IfBool => "IfStream",
+        }
+    }
+    fn is_bool(self) -> bool {
+        matches!(self, AK::And | AK::Or | AK::IfBool | AK::IfElseBool)
+    }
+    fn payloads(self) -> &'static [&'static str] {
+        if self.is_bool() {
+            &["bool"]
+        } else if self == AK::Exponent {
+            &["f32"]
+        } else {
+            &["f32", "Quantity", "M2"]
+        }
+    }
+    fn describe(self) -> String {
+        match self {
+            AK::Sum(n) | AK::Product(n) | AK::Latest(n) => format!("{}<{}> with all {} inputs aliased", self.name(), n, n),
+            AK::IfElse => "IfElseStream with both branches aliased".to_string(),
+            AK::IfBool => "IfStream<bool> with condition and input aliased".to_string(),
+            AK::IfElseBool => "IfElseStream<bool> with condition and both branches aliased".to_string(),
+            _ => format!("{} with both inputs aliased", self.name()),
+        }
+    }
+}
+const BACKINGS: [&str; 6] = ["Rc<RefCell>", "raw-ptr", "Arc<Mutex>", "Arc<RwLock>", "ptr-Mutex", "ptr-RwLock"];
+struct Fixed<T: Clone> {
+    out: Out<T>,
+}
+impl<T: Clone> Getter<T, E> for Fixed<T> {
+    fn get(&self) -> Out<T> {
+        self.out.clone()
+    }
+}
+impl<T: Clone> Updatable<E> for Fixed<T> {
+    fn update(&mut self) -> NothingOrError<E> {
+        Ok(())
+    }
+}
+fn alias_ref<T: Clone + 'static>(backing: usize, out: Out<T>) -> Reference<dyn Getter<T, E>> {
+    let fx = Fixed { out };
+    match backing {
+        0 => {
+            let r: std::rc::Rc<std::cell::RefCell<dyn Getter<T, E>>> = rc(fx);
+            Reference::from_rc_ref_cell(r)
+        }
+        1 => {
+            let p: *mut dyn Getter<T, E> = Box::into_raw(Box::new(fx));
+            unsafe { Reference::from_ptr(p) }
+        }
+        2 => {
+            let a: Arc<Mutex<dyn Getter<T, E>>> = Arc::new(Mutex::new(fx));
+            Reference::from_arc_mutex(a)
+        }
+        3 => {
+            let a: Arc<RwLock<dyn Getter<T, E>>> = Arc::new(RwLock::new(fx));
+            Reference::from_arc_rw_lock(a)
+        }
+        4 => {
+            let p: *mut Mutex<dyn Getter<T, E>> = Box::into_raw(Box::new(Mutex::new(fx)));
+            unsafe { Reference::from_ptr_mutex(p as *const _) }
+        }
+        _ => {
+            let p: *mut RwLock<dyn Getter<T, E>> = Box::into_raw(Box::new(RwLock::new(fx)));
+            unsafe { Reference::from_ptr_rw_lock(p as *const _) }
+        }
+    }
+}
+enum AVerdict {
+    Match,
+    Panic(String),
+    Wrong(&'static str, String),
+}
+struct AMsg {
+    cat: &'static str,
+    verdict: AVerdict,
+}
+fn a_judge<T: Debug>(what: &str, obs: &Obs<T>, ok: &[Out<T>], veq: fn(&T, &T) -> bool) -> AMsg {
+    match obs {
+        Err(m) => AMsg { cat: "panic", verdict: AVerdict::Panic(format!("{}: get() panicked: {}", what, m)) },
+        Ok(o) => {
+            let c = cat(&o[0]);
+            if !(out_same(&o[0], &o[1], veq) && out_same(&o[0], &o[2], veq)) {
+                AMsg { cat: c, verdict: AVerdict::Wrong("purity", format!("{}: three successive get() returned {:?}", what, o)) }
+            } else if ok.iter().any(|e| out_same(&o[0], e, veq)) {
+                AMsg { cat: c, verdict: AVerdict::Match }
+            } else {
+                AMsg { cat: c, verdict: AVerdict::Wrong("outcome", format!("{}: observed {:?}, acceptable {:?}", what, o[0], ok)) }
+            }
+        }
+    }
+}
+fn alias_val<T: Pay>(kind: AK, backing: usize, code: u8, rng: &mut Rng) -> AMsg {
+    let t = distinct_stamps(rng, 1)[0];
+    let v = T::additive(rng, 1)[0];
+    let out: Out<T> = mk(code, t, v);
+    let r = alias_ref(backing, out.clone());
+    let what = format!("{} <{}> through {}, the shared input returns {:?}", kind.describe(), T::NAME, BACKINGS[backing], out);
+    let two = vec![out.clone(), out.clone()];
+    match kind {
+        AK::Sum(n) | AK::Product(n) | AK::Latest(n) => {
+            let refs = vec![r; n];
+            let outs = vec![out.clone(); n];
+            let k = match kind {
+                AK::Sum(_) => Kind::Sum,
+                AK::Product(_) => Kind::Product,
+                _ => Kind::Latest,
+            };
+            let g = build_nary_refs::<T>(k, &refs);
+            let obs = get3(&*g);
+            let ok = match k {
+                Kind::Sum => nary_acceptable(&outs, |a, b| a + b, &obs),
+                Kind::Product => nary_acceptable(&outs, |a, b| a * b, &obs),
+                Kind::Latest => vec![match &out {
+                    Ok(Some(_)) => out.clone(),
+                    _ => Ok(None),
+                }],
+            };
+            a_judge(&what, &obs, &ok, T::veq)
+        }
+        AK::Sum2 => a_judge(&what, &get3(&Sum2::new(r.clone(), r)), &[fold_oracle(&two, |a, b| a + b)], T::veq),
+        AK::Product2 => a_judge(&what, &get3(&Product2::new(r.clone(), r)), &[fold_oracle(&two, |a, b| a * b)], T::veq),
+        AK::Difference => a_judge(&what, &get3(&DifferenceStream::new(r.clone(), r)), &[asym_oracle(&two, |a, b| a - b)], T::veq),
+        AK::Quotient => a_judge(&what, &get3(&QuotientStream::new(r.clone(), r)), &[asym_oracle(&two, |a, b| a / b)], T::veq),
+        AK::Exponent => {
+            let g = T::exponent_refs(r.clone(), r).expect("f32 only");
+            let obs = get3(&*g);
+            match T::reference_pow(v, v) {
+                Some(pw) => a_judge(&what, &obs, &[asym_oracle(&two, |_, _| pw)], T::veq),
+                None => AMsg { cat: "panic", verdict: AVerdict::Wrong("reference", format!("{}: the reference ExponentStream on ConstantGetters gave no value", what)) },
+            }
+        }
+        AK::IfElse => {
+            // whichever branch the (independent) condition selects, it is the shared input
+            let c = Src::<bool>::with(Ok(Some(Datum::new(Time(distinct_stamps(rng, 1)[0]), rng.chance(0.5)))));
+            a_judge(&what, &get3(&IfElseStream::new(c.dynref(), r.clone(), r)), &[out.clone()], T::veq)
+        }
+        _ => unreachable!(),
+    }
+}
+fn alias_bool(kind: AK, backing: usize, code: u8, rng: &mut Rng) -> AMsg {
+    let t = distinct_stamps(rng, 1)[0];
+    let out: Out<bool> = mk(code, t, code == TRUE);
+    let r = alias_ref(backing, out.clone());
+    let what = format!("{} through {}, the shared input returns {:?}", kind.describe(), BACKINGS[backing], out);
+    let two = vec![out.clone(), out.clone()];
+    match kind {
+        AK::And => a_judge(&what, &get3(&AndStream::new(r.clone(), r)), &[table_oracle(&two, &AND_TABLE)], beq),
+        AK::Or => a_judge(&what, &get3(&OrStream::new(r.clone(), r)), &[table_oracle(&two, &OR_TABLE)], beq),
+        AK::IfBool => {
+            // propagates the input iff the condition is Some(true); a condition error is returned
+            let exp: Out<bool> = match &out {
+                Err(e) => Err(*e),
+                Ok(Some(d)) if d.value => out.clone(),
+                _ => Ok(None),
+            };
+            a_judge(&what, &get3(&IfStream::new(r.clone(), r)), &[exp], beq)
+        }
+        AK::IfElseBool => {
+            // error -> error, absent -> absent, Some(true)/Some(false) -> that branch = the shared input
+            a_judge(&what, &get3(&IfElseStream::new(r.clone(), r.clone(), r)), &[out.clone()], beq)
+        }
+        _ => unreachable!(),
+    }
+}
+/// the (payload, input outcome code) cells of one aliased case, in the order the helper thread runs them
+fn alias_plan(kind: AK) -> Vec<(&'static str, u8)> {
+    let mut v = Vec::new();
+    for p in kind.payloads() {
+        for code in 0..if kind.is_bool() { AB } else { AV } {
+            v.push((*p, code));
+        }
+    }
+    v
+}
+struct APending {
+    case: u64,
+    kind: AK,
+    backing: usize,
+    plan: Vec<(&'static str, u8)>,
+    rx: mpsc::Receiver<AMsg>,
+    spawned: std::time::Instant,
+}
+fn alias_spawn(seed: u64, case: u64, kind: AK, backing: usize) -> APending {
+    let (tx, rx) = mpsc::channel::<AMsg>();
+    let plan = alias_plan(kind);
+    let plan2 = plan.clone();
+    // detached on purpose: a helper that never returns must not keep the monitor from finishing
+    // (`Report::finish` ends the process with std::process::exit)
+    let _ = std::thread::Builder::new().name(format!("c02-aliased-{}", case)).spawn(move || {
+        let mut rng = Rng::new(seed, 213, case);
+        for (p, code) in plan2 {
+            let m = match catch(|| match p {
+                "f32" => alias_val::<f32>(kind, backing, code, &mut rng),
+                "Quantity" => alias_val::<Quantity>(kind, backing, code, &mut rng),
+                "M2" => alias_val::<M2>(kind, backing, code, &mut rng),
+                _ => alias_bool(kind, backing, code, &mut rng),
+            }) {
+                Ok(m) => m,
+                Err(msg) => AMsg { cat: "panic", verdict: AVerdict::Panic(format!("{} through {}: panicked outside get(): {}", kind.describe(), BACKINGS[backing], msg)) },
+            };
+            if tx.send(m).is_err() {
+                return;
+            }
+        }
+    });
+    APending { case, kind, backing, plan, rx, spawned: std::time::Instant::now() }
+}
+/// collect the verdicts of one helper thread; returns true if it hung. `known_hung`: the same
+/// (combinator, backing) has already been reported as not returning in this process; its other helpers
+/// are not waited for again (what they did report is still checked).
+fn alias_collect(rep: &mut Report, p: APending, known_hung: bool) -> bool {
+    let stream = p.kind.name();
+    let back = BACKINGS[p.backing];
+    for (i, (pay, code)) in p.plan.iter().enumerate() {
+        // generous: 20 s from the start of the helper (and never less than 2 s per cell) for work that
+        // takes microseconds; only a call that does not return at all gets here
+        let left = if known_hung {
+            std::time::Duration::from_millis(1)
+        } else {
+            std::time::Duration::from_secs(20).saturating_sub(p.spawned.elapsed()).max(std::time::Duration::from_secs(2))
+        };
+        rep.eval();
+        rep.distinct(("aliased", format!("{:?}", p.kind), p.backing, *pay, *code));
+        match p.rx.recv_timeout(left) {
+            Ok(m) => {
+                if rep.verbose {
+                    eprintln!("case aliased:{} {} <{}> through {} input code {} -> {}", p.case, p.kind.describe(), pay, back, code, m.cat);
+                }
+                match m.verdict {
+                    AVerdict::Match => {
+                        rep.tally(&format!("aliased_ok:{}", back));
+                        rep.tally(&format!("aliased_ok_stream:{}", stream));
+                        rep.tally(&format!("aliased_out:{}", m.cat));
+                        if rep.want_sample("aliased") && p.backing == 2 && *code == PRES {
+                            rep.sample("aliased", format!("{} <{}> through {}: documented outcome for equal operands ({})", p.kind.describe(), pay, back, m.cat));
+                        }
+                    }
+                    AVerdict::Panic(d) => rep.violation(&format!("C02/aliased-inputs-panic/{}/{}", stream, back), "aliased", p.case, d),
+                    AVerdict::Wrong(clause, d) => rep.violation(&format!("C02/aliased-inputs/{}/{}", stream, clause), "aliased", p.case, d),
+                }
+            }
+            Err(mpsc::RecvTimeoutError::Timeout) if known_hung => {
+                rep.tally("aliased_cases_not_waited_for_after_a_hang");
+                return true;
+            }
+            Err(mpsc::RecvTimeoutError::Timeout) => {
+                rep.violation(&format!("C02/aliased-inputs-hang/{}/{}", stream, back), "aliased", p.case,
+                    format!("{} <{}> through {}, shared input outcome code {} (0..2 = Err(FromNone/Other(1)/Other(2)), 3 = None, 4.. = Some): get() did not return within {:?} on an otherwise idle helper thread (the same object is reachable through both inputs: a guard of one input still held while the other is borrowed never lets the second borrow succeed)",
+                        p.kind.describe(), pay, back, code, p.spawned.elapsed()));
+                rep.tally_n("aliased_cells_not_run_after_a_hang", (p.plan.len() - i - 1) as u64);
+                return true;
+            }
+            Err(mpsc::RecvTimeoutError::Disconnected) => {
+                rep.violation(&format!("C02/aliased-inputs-panic/{}/{}", stream, back), "aliased", p.case,
+                    format!("{} <{}> through {}, input code {}: the helper thread died without reporting", p.kind.describe(), pay, back, code));
+                return false;
+            }
+        }
+    }
+    false
 }
 
 // ---------------------------------------------------------------------------------------------
@@ -1746,6 +2176,50 @@ fn main() {
         rep.floor("history_steps_changing_the_output:value", 1000);
         rep.floor("history_steps_changing_the_output:category", 1000);
         rep.floor("history_exponent_steps_changing_the_output", 200);
+    }
+    // ---- 7. aliased inputs through every Reference backing
+    {
+        let mut kinds: Vec<AK> = Vec::new();
+        for n in 2..=5 {
+            kinds.extend([AK::Sum(n), AK::Product(n), AK::Latest(n)]);
+        }
+        kinds.extend([AK::Sum2, AK::Product2, AK::Difference, AK::Quotient, AK::Exponent, AK::IfElse, AK::And, AK::Or, AK::IfBool, AK::IfElseBool]);
+        let rounds = args.pick(6, 48);
+        let mut hung: std::collections::HashSet<(AK, usize)> = std::collections::HashSet::new();
+        let mut idx = 0u64;
+        // one round = every (combinator, backing) once; all helpers of this shard run concurrently
+        let mut pending: Vec<APending> = Vec::new();
+        for _ in 0..rounds {
+            for kind in &kinds {
+                for backing in 0..BACKINGS.len() {
+                    let case = idx;
+                    idx += 1;
+                    if !args.mine("aliased", case) {
+                        continue;
+                    }
+                    pending.push(alias_spawn(args.seed, case, *kind, backing));
+                }
+            }
+        }
+        for p in pending {
+            let key = (p.kind, p.backing);
+            let known = hung.contains(&key);
+            if alias_collect(&mut rep, p, known) {
+                hung.insert(key);
+            }
+        }
+        rep.exhaustive("aliased inputs: {SumStream, ProductStream, Latest} arity 2..=5 (all inputs one object), Sum2, Product2, Difference, Quotient, Exponent, IfElse (both branches), And, Or, IfStream<bool>, IfElseStream<bool> x {Rc<RefCell>, raw pointer, Arc<Mutex>, Arc<RwLock>, *Mutex, *RwLock} x every outcome of the shared input x {f32, Quantity, M2 | bool}");
+        for b in BACKINGS {
+            rep.floor(&format!("aliased_ok:{}", b), 200);
+        }
+        for s in ["SumStream", "ProductStream", "Latest", "Sum2", "Product2", "DifferenceStream", "QuotientStream", "ExponentStream", "IfElseStream", "AndStream", "OrStream", "IfStream"] {
+            rep.floor(&format!("aliased_ok_stream:{}", s), 60);
+        }
+    }
+    rep.floor("combinator_update_calls_ok", 5000);
+    rep.floor("update_then_change_then_get_with_changed_output", 2000);
+    for s in ["SumStream", "ProductStream", "Latest", "Sum2", "Product2", "DifferenceStream", "QuotientStream", "ExponentStream", "AndStream", "OrStream", "NotStream", "IfStream", "IfElseStream", "NoneToError", "NoneToValue", "Expirer", "ConstantGetter"] {
+        rep.floor(&format!("update_then_change_then_get:{}", s), 30);
     }
     // coverage the verdict depends on
     rep.floor("out_err", 1000);
